@@ -1,15 +1,14 @@
-LEVEL = 'proof'
-MANIFEST = {'engine': 'CVC-ALG+PYVC+BOUNDED',
- 'note': 'Assumed: contracts of the field primitives (mont_mult/add/sub, mul_25519/add_25519/sub_25519 ... == field operations), named one by one in '
-         'evidence.assumptions, covered only by the bounded harness bounded/ec.py + bounded/bigint.py; completeness theorems of the RCB and Edwards '
-         'formulas (trusted mathematics); clang parse == gcc parse; sympy exact arithmetic. Not decided: ec_scalar windowing/blinding, generator '
-         'tables.',
- 'technique': 'contract-based deductive verification: sidecar contracts on the real C functions, symbolic execution of the clang typed AST, '
-              'polynomial-identity VCs discharged by exact normal form (sympy); PYVC/z3 for the Python wrappers; bounded run-time contracts as '
-              'labelled stand-in',
- 'text': 'Deductive for the formula level: the real C functions (ec_full_add/double/mix_add/projective_to_affine, ed25519/ed448 add/double, '
-         'curve25519/curve448 ladder steps, the on-curve tests) are symbolically executed from the clang AST of the current source; each output '
-         'coordinate is a polynomial and the group-law obligations (chord/tangent, Edwards law, xDBL/xADD, exceptional operands, homogeneity, '
-         'constants vs the standards, limb-range typing of the 25519 code) are exact polynomial identities modulo the curve equation. Python '
-         'operator wrappers / DH are PYVC contracts where listed in the evidence. Scalar multiplication loops, tables and field arithmetic are '
-         'bounded only (run-time contract against an independent big-int group law) and are not counted as proved.'}
+"""Check for C06: the union of the units every contract area contributes (vf/areas.py).
+Level claimed, engines and notes live in props/entries.json (tools/manifest.py generates MANIFEST.json from it)."""
+import json
+import os
+
+_E = json.load(open(os.path.join(os.path.dirname(__file__), 'entries.json'))).get('C06', {})
+LEVEL = _E.get('level', 'proof')
+TRUSTED = ['CPython semantics as modelled by PYVC (DESIGN.md 2.3)', 'z3 5.1 / cvc5 1.0.3']
+EXPLANATION = _E.get('text', '')
+
+
+def units(tier):
+    from vf.areas import collect
+    return collect('C06', tier)
